@@ -1,0 +1,23 @@
+//! verif-hooks only (VribQuery): the `sort=<json pointers>` machinery of the
+//! RIB query API. `PrefixesApi::sort_results` and
+//! `PrefixesApi::cmp_json_values` are private to `response.rs`, so this file
+//! is mounted as a child module of it (one cfg'd `#[path] pub mod` line at
+//! the end of `response.rs`). Plain calls only, no behaviour of its own.
+use std::cmp::Ordering;
+
+use serde_json::Value;
+
+use super::super::types::SortKey;
+use super::super::PrefixesApi;
+
+/// `PrefixesApi::cmp_json_values`, unchanged.
+pub fn cmp_json_values(lhs: &Value, rhs: &Value) -> Ordering {
+    PrefixesApi::cmp_json_values(lhs, rhs)
+}
+
+/// `PrefixesApi::sort_results` with `SortKey::Some(sort)` (the value of the
+/// `sort` query parameter) or `SortKey::None`.
+pub fn sort_results(sort: Option<&str>, results: &mut [Value]) {
+    let key: SortKey = sort.map(|s| s.to_string());
+    PrefixesApi::sort_results(&key, results)
+}
